@@ -1,62 +1,111 @@
 import KoordVerif.Props.C07
 namespace KoordVerif.C07
 
-/-! ### allocateSet = the live pods (the duplicate gate is keyed on it) -/
+/-- what calcFreeWithPreemptible leaves on a minor whose preemptible amounts are `P` -/
+def remainingOf (s : TState) (m : Nat) (P : RL) : RL :=
+  rlSubNN (drGetD s.total m) (rlSubNN (drGetD s.used m) P)
 
-theorem hasPod_append (s : TState) (x : List (Nat × DevRes)) (q : Nat) :
-    hasPod { s with pods := s.pods ++ x } q = (hasPod s q || x.any (fun e => e.1 == q)) := by
-  simp [hasPod, List.any_append]
+def mergeStep (s : TState) (acc : DevRes) (p : Nat × RL) : DevRes :=
+  if rlIsZero (remainingOf s p.1 p.2) then acc else drSet acc p.1 (remainingOf s p.1 p.2)
 
-/-- an add leaves the pod recorded, and changes the recorded set for no other pod -/
-theorem add_records (s : TState) (p : Nat) (al : List (Nat × RL)) (q : Nat) :
-    hasPod (addT s p al) q = (hasPod s q || decide (p = q)) := by
-  simp only [addT]
-  cases hp : hasPod s p with
-  | true =>
-    simp only [if_true]
-    by_cases h : p = q
-    · subst h; simp [hp]
-    · simp [h]
-  | false =>
-    simp only [Bool.false_eq_true, if_false]
-    show hasPod { (resetFree { s with used := usedAdd s.used al }) with
-      pods := (resetFree { s with used := usedAdd s.used al }).pods ++ [(p, recOf al)] } q = _
-    rw [hasPod_append]
-    by_cases h : p = q <;> simp [hasPod, resetFree, h]
+theorem drGet_foldl_merge (s : TState) (pre : DevRes) (m : Nat) : ∀ (acc : DevRes), (pre.map (·.1)).Nodup →
+    drGet (pre.foldl (mergeStep s) acc) m =
+      match drGet pre m with
+      | some P => if rlIsZero (remainingOf s m P) then drGet acc m else some (remainingOf s m P)
+      | none => drGet acc m := by
+  induction pre with
+  | nil => intro acc _; simp [drGet]
+  | cons p rest ih =>
+    intro acc hn
+    obtain ⟨m', P'⟩ := p
+    simp only [List.map_cons, List.nodup_cons] at hn
+    simp only [List.foldl_cons]
+    rw [ih _ hn.2]
+    by_cases hm : m' = m
+    · subst hm
+      rw [drGet_none_of_not_mem rest m' hn.1]
+      simp only [drGet, if_true, mergeStep]
+      split
+      · rfl
+      · simp [drGet_drSet]
+    · have hacc : drGet (mergeStep s acc (m', P')) m = drGet acc m := by
+        simp only [mergeStep]
+        split
+        · rfl
+        · simp [drGet_drSet, hm]
+      simp only [drGet, hm, if_false, hacc]
 
-/-- a removal leaves the pod unrecorded, and changes the recorded set for no other pod -/
-theorem remove_forgets (s : TState) (p : Nat) (al : List (Nat × RL)) (q : Nat) :
-    hasPod (removeT s p al) q = (hasPod s q && !decide (p = q)) := by
-  simp only [removeT]
-  cases hp : hasPod s p with
-  | false =>
-    simp only [Bool.not_false, if_true]
-    by_cases h : p = q
-    · subst h; simp [hp]
-    · simp [h]
-  | true =>
-    simp only [Bool.not_true, Bool.false_eq_true, if_false]
-    show (List.filter (fun e => e.1 != p) s.pods).any (fun e => e.1 == q) = _
-    simp only [hasPod, List.any_filter]
-    by_cases h : p = q
-    · subst h
-      simp only [decide_true, Bool.not_true, Bool.and_false]
-      rw [List.any_eq_false]
-      intro e _
-      by_cases h2 : e.1 = p <;> simp [h2]
-    · simp only [h, decide_false, Bool.not_false, Bool.and_true]
-      congr 1
-      funext e
-      by_cases h2 : e.1 = q
-      · have : e.1 ≠ p := fun h3 => h (h3 ▸ h2)
-        simp [h2, this]
-        exact fun h3 => h (h3 ▸ rfl)
-      · simp [h2]
+theorem calcFree_preempt_get (s : TState) (pre : DevRes) (hn : (pre.map (·.1)).Nodup) (m : Nat) :
+    drGet (calcFree s pre []) m =
+      match drGet pre m with
+      | some P => if rlIsZero (remainingOf s m P) then drGet s.free m else some (remainingOf s m P)
+      | none => drGet s.free m := by
+  have hmerged : (if pre.isEmpty then ([] : DevRes) else
+      pre.foldl (fun acc p =>
+        let used := rlSubNN (drGetD s.used p.1) p.2
+        let remaining := rlSubNN (drGetD s.total p.1) used
+        if rlIsZero remaining then acc else drSet acc p.1 remaining) []) = pre.foldl (mergeStep s) [] := by
+    cases pre with
+    | nil => rfl
+    | cons _ _ => rfl
+  simp only [calcFree, List.isEmpty_nil, if_true]
+  rw [hmerged]
+  have hg := drGet_foldl_merge s pre m [] hn
+  simp only [drGet] at hg
+  generalize hM : pre.foldl (mergeStep s) [] = merged at *
+  have hfree : drGet (if merged.isEmpty then s.free else merged ++ s.free.filter (fun p => !drHas merged p.1)) m =
+      match drGet merged m with
+      | some v => some v
+      | none => drGet s.free m := by
+    cases hme : merged.isEmpty
+    · simp only [Bool.false_eq_true, if_false]
+      rw [drGet_append, drGet_filter_key s.free (fun x => !drHas merged x) m]
+      cases hgm : drGet merged m with
+      | some v => rfl
+      | none => simp [drHas, hgm]
+    · have : merged = [] := List.isEmpty_iff.mp hme
+      subst this
+      simp [drGet]
+  rw [hfree, hg]
+  cases drGet pre m with
+  | none => rfl
+  | some P =>
+    simp only []
+    cases rlIsZero (remainingOf s m P) <;> simp
 
-/-- a refresh does not touch allocateSet and installs exactly the new inventory as total -/
-theorem refresh_total (s : TState) (nt : DevRes) (m k : Nat) :
-    (refreshT s nt).pods = s.pods ∧ drVal (refreshT s nt).total m k = drVal nt m k := by
-  refine ⟨rfl, ?_⟩
-  simp only [refreshT, resetFree_total_val]
+/-- **calcFree_preempt**: with preemptible amounts `pre` (what the victims hold, per minor) and no reserved amounts,
+    the free amount offered on a preemptible minor is `max 0 (total − max 0 (used − P))`, on any other minor it is
+    deviceFree — value-wise, on a ledger with the invariants. -/
+theorem calcFree_preempt (s : TState) (hinv : Inv1 s) (pre : DevRes) (hn : (pre.map (·.1)).Nodup)
+    (hp : amountsOK pre = true) (m k : Nat) :
+    drVal (calcFree s pre []) m k =
+      match drGet pre m with
+      | some P => max 0 (drVal s.total m k - max 0 (drVal s.used m k - rlVal P k))
+      | none => drVal s.free m k := by
+  have hget := calcFree_preempt_get s pre hn m
+  cases hg : drGet pre m with
+  | none =>
+    rw [hg] at hget
+    simp only [drVal, drGetD, hget]
+  | some P =>
+    rw [hg] at hget
+    simp only [] at hget
+    have hP : 0 ≤ rlVal P k := alNonneg_of pre hp (m, P) (drGet_mem pre m P hg) k
+    have hrem : rlVal (remainingOf s m P) k = max 0 (drVal s.total m k - max 0 (drVal s.used m k - rlVal P k)) := by
+      simp only [remainingOf]
+      rw [rlVal_subNN _ _ _ (rlVal_subNN_nonneg _ _ k), rlVal_subNN _ _ _ hP]
+      rfl
+    by_cases hz : rlIsZero (remainingOf s m P) = true
+    · simp only [hz, if_true] at hget
+      have h0 := rlVal_of_isZero _ k hz
+      rw [hrem] at h0
+      have hf := hinv.free m k
+      have hu := hinv.upos m k
+      have ht := hinv.tpos m k
+      simp only [drVal, drGetD, hget] at *
+      omega
+    · simp only [hz, if_false] at hget
+      simp only [drVal, drGetD, hget, Option.getD_some]
+      simpa [drVal, drGetD] using hrem
 
 end KoordVerif.C07
